@@ -801,6 +801,13 @@ func (check typecheck) conversion(n *node, typ *itype) error {
 		}
 	}
 
+	if c == nil && n.rval.IsValid() && isNumber(typ.TypeOf()) {
+		// The conversion of a typed constant to a numeric type is a constant conversion too.
+		if err := check.representable(n, typ.TypeOf()); err != nil {
+			return err
+		}
+	}
+
 	var ok bool
 	switch {
 	case c != nil && isConstType(typ):
@@ -1317,8 +1324,8 @@ func (check typecheck) representable(n *node, t reflect.Type) error {
 		// TODO(nick): This should be an error as the const is in the frame which is undesirable.
 		return nil
 	}
-	c, ok := n.rval.Interface().(constant.Value)
-	if !ok {
+	c := constValue(n.rval)
+	if c == nil {
 		// TODO(nick): This should be an error as untyped strings and bools should be constant.Values.
 		return nil
 	}
